@@ -17,7 +17,6 @@ import json
 import os
 import shutil
 import subprocess
-import sys
 
 import vlib
 
@@ -64,14 +63,14 @@ OT_DEFAULTS = dict(NK=2, NB=2, MAXSPANS=1, MAXSTEPS=3, NAMES=q("n1"), MAXREFS=0,
 
 def ot_configs(thorough):
     c = []
-    c.append(dict(name="ot-refs", OPS=q("Start", "Finish"), MAXSPANS=3, MAXSTEPS=3, MAXREFS=3 if thorough else 2,
+    c.append(dict(name="ot-refs", OPS=q("Start", "Finish"), MAXSPANS=3, MAXSTEPS=4, MAXREFS=3 if thorough else 2,
                   FOREIGN="{-1}", NK=1, NB=1))
     c.append(dict(name="ot-tags", OPS=q("Start", "SetTag", "SetKind", "SetErr", "SetName", "Finish"), MAXSPANS=1,
                   MAXSTEPS=4 if thorough else 3, NAMES=q("n1", "n2"),
                   KINDS=q("", "client", "server", "producer", "consumer", "bogus"), ERRS=q("", "true", "false"),
                   TAGLISTS=tla_set(["<<>>", kv((1, "int")), kv((1, "str"), (2, "u64"))]),
                   TAGCLS=q(*(ALLCLS if thorough else ["str", "bool", "int", "u32", "uint", "u64", "f32"]))))
-    c.append(dict(name="ot-logs", OPS=q("Start", "Log", "SetName", "Finish"), MAXSPANS=1, MAXSTEPS=4 if thorough else 3,
+    c.append(dict(name="ot-logs", OPS=q("Start", "Log", "SetName", "Finish"), MAXSPANS=1, MAXSTEPS=5 if thorough else 4,
                   KVLISTS=tla_set(["<<>>", kv((1, "str")), kv((1, "int"), (2, "f32")), kv((1, "str"), (1, "str2")),
                                    kv((2, "u64"), (1, "bool"))]),
                   LOGVIAS=q("fields", "kv"), FINISHLOGS="{0, 1, 2}"))
@@ -205,10 +204,21 @@ def random_histories(ctx, binp, n):
     ctx.extra["random_counters"] = res.get("counters", {})
     ctx.extra["trace_lines_validated"] = accepted
     ctx.add_samples(res["samples"][:1])
-    lines = None
+    lines = open(trace).read().splitlines()
+    # self-test of the oracle: corrupt one recorded field of one line -> Trace_Bridge.tla must reject exactly that line
+    for i, ln in enumerate(lines[:400]):
+        rec = json.loads(ln)
+        if rec["ev"] == "Op" and rec["obs"]["spans"]:
+            rec["obs"]["spans"][0]["ended"] = 7
+            bad = os.path.join(ctx.work, "trace-corrupt.ndjson")
+            open(bad, "w").write("\n".join(lines[:i] + [json.dumps(rec)]) + "\n")
+            cv, _ = ctx.validate_trace(S, "Trace_Bridge", "Trace_Bridge.cfg", bad, timeout=600, name="trace-corrupt")
+            hit = any(v["line"] == i + 1 and any(d["field"] == "ended" and d["span"] == 1 for d in v["diffs"]) for v in cv)
+            ctx.extra["corrupt_trace_rejected"] = hit
+            if not hit:
+                ctx.note_inconclusive("self-test: a corrupted trace line was not rejected by Trace_Bridge.tla")
+            break
     for v in viols:
-        if lines is None:
-            lines = open(trace).read().splitlines()
         rec = json.loads(lines[v["line"] - 1])
         scen = []
         i = v["line"] - 1
@@ -255,6 +265,20 @@ def run(ctx):
         d["MAXLEN"] = 4
     r = ctx.tlc(S, "MC_Composite", "MC_Composite.cfg", defines=d, want_edges=True, name="composite", timeout=900, heap="2g")
     edges["composite"] = replay(ctx, binp, "cp", r, "composite", [0, 1, 2] if thorough else [ctx.seed % 3, (ctx.seed + 1) % 3])
+    # self-test of the replay binding: corrupt one field of one edge's successor state -> the harness must report it
+    for ln in open(r["edges_file"]):
+        e = json.loads(ln)
+        if e["act"].get("op") == "RT" and "m1" in e["act"]["ps"]:
+            e["to"]["car"]["shared"] = "9"
+            bad = os.path.join(ctx.work, "edges-corrupt.ndjson")
+            open(bad, "w").write(json.dumps(e) + "\n")
+            out = os.path.join(ctx.work, "replay-corrupt.json")
+            ctx.run([binp, "replay", "-part", "cp", "-edges", bad, "-out", out], timeout=300)
+            hit = any(c["sig"]["field"] == "car.shared" for c in json.load(open(out))["classes"])
+            ctx.extra["corrupt_edge_rejected"] = hit
+            if not hit:
+                ctx.note_inconclusive("self-test: a corrupted edge was not reported by the replay")
+            break
     ctx.extra["edges_replayed"] = edges
     # ---- code -> spec: seeded random histories on both bridges, judged by Trace_Bridge.tla
     if "random" in parts:
